@@ -1063,7 +1063,7 @@ class Engine:
         return ok
 
     # ================= execution =======================================
-    def exec_body(self, st, func, args, depth=0, start_bb=0, typed_locals=False, pre=None):
+    def exec_body(self, st, func, args, depth=0, start_bb=0, typed_locals=False, pre=None, frame=None):
         """run body `func` from state st with argument values; returns [(state, retval)].
         start_bb / typed_locals: start in the middle of the body with every local an unknown of
         its declared type (used to analyse the coroutine from each resume point); `pre` is called
@@ -1071,8 +1071,9 @@ class Engine:
         body = self.prog.bodies[func]
         if depth > self.cfg['max_depth'] or func in st.stack and st.stack.count(func) >= 3:
             raise Budget('inlining depth exceeded at %s via %s' % (func, ' > '.join(st.stack)))
-        fr = Frame(body)
-        st.stack = st.stack + (func,)
+        fr = frame if frame is not None else Frame(body)
+        if frame is None:
+            st.stack = st.stack + (func,)
         for i, a in enumerate(args):
             st.store[('L', fr.uid, i + 1)] = a
         if typed_locals:
@@ -1317,7 +1318,7 @@ class Engine:
         A-ARG are checked at the call, the callee's may-write set is forgotten, INV is assumed.
         (Each such callee is itself analysed as an entry point from an arbitrary INV state.)"""
         from . import inv
-        st.log(('listener', callee, tuple(args), t['span'].get('line'), fr.func))
+        st.log(('listener', callee, tuple(args), t['span'].get('line'), fr.func, tuple(self.describe_value(st, a) for a in args)))
         for (name, ok, facts) in inv.check_inv(self, st):
             self.obligation(st, fr, bi, 'callinv', '%s before %s' % (name, short(callee)), t['span'], ok, facts)
         for i, a in enumerate(args[1:]):
@@ -1343,6 +1344,43 @@ class Engine:
             if not (lo >= 0 and hi <= self.cfg['arg_max']):
                 return False
         return True
+
+    def describe_value(self, st, a, depth=0):
+        """python description of an abstract value at the time of an event"""
+        hops = 0
+        while isinstance(a, RefV) and hops < 4:
+            a = self.read(st, a.path)
+            hops += 1
+        if isinstance(a, StrV):
+            if a.known is not None:
+                return a.known
+            k = st.vn.get(('strval', a.oid)) if a.oid is not None else None
+            if k is not None:
+                return k
+            return ('str?', a.prov, a.oid)
+        if isinstance(a, CharV):
+            return a.known if a.known is not None else ('char?',)
+        if isinstance(a, BoolV):
+            return self.eval_bool(st, a)
+        if isinstance(a, NumV):
+            if a.sym is None:
+                return a.k
+            lo, hi = self.bounds(st, a)
+            if lo == hi:
+                return lo
+            return ('num', lo, hi)
+        if isinstance(a, CollV):
+            if a.known is not None and depth < 3:
+                return tuple(self.describe_value(st, x, depth + 1) for x in a.known)
+            return ('coll?', a.kind, repr(a.length))
+        if isinstance(a, EnumV):
+            if a.tags == {0} and a.ty.startswith('std::option::Option'):
+                return None
+            if a.tags == {1} and a.ty.startswith('std::option::Option'):
+                p = a.payload[1].fields.get('0')
+                return ('Some', self.describe_value(st, p, depth + 1))
+            return ('enum?', tuple(sorted(a.tags)))
+        return ('?', type(a).__name__)
 
     def arg_in_domain(self, st, a):
         amax = self.cfg['arg_max']
